@@ -535,6 +535,7 @@ class _Kinds:
         self._attr = {}
         self._busy = set()
         self._keys = {}
+        self.conflicts = []
 
     @staticmethod
     def merge(a, b):
@@ -576,13 +577,31 @@ class _Kinds:
             return self._attr[name]
         self._attr[name] = "?"
         k = None
+        sites = []
         for mname, f in self.methods.items():
             for c in walk_local(f):
                 if isinstance(c, ast.Call) and isinstance(c.func, ast.Attribute) and c.func.attr == "append" and path_of(c.func.value) == f"self.{name}" and c.args:
                     kk = self.kind(f, c.args[0], {})
-                    k = kk if k is None else self.merge(k, kk)
+                    sites.append((f, c, kk))
+                    k = kk if k is None else self.merge_strict(k, kk, (name, f, c))
         self._attr[name] = ("list", k) if k is not None else "?"
         return self._attr[name]
+
+    def merge_strict(self, a, b, where):
+        """merge, but record int/str disagreements between filling sites"""
+        def clash(x, y):
+            if {x, y} == {"int", "str"}:
+                return True
+            if isinstance(x, tuple) and isinstance(y, tuple) and x[0] == y[0]:
+                if x[0] == "list":
+                    return clash(x[1], y[1])
+                if x[0] == "tuple" and len(x[1]) == len(y[1]):
+                    return any(clash(p, q) for p, q in zip(x[1], y[1]))
+            return False
+        if clash(a, b):
+            self.conflicts.append(where)
+            return a  # keep the representation of the first site
+        return self.merge(a, b)
 
     def key(self, name):
         """Kind of values stored under a constant dict key anywhere in the class."""
@@ -722,7 +741,12 @@ def r38(ctx, methods):
                                 construct=short(c, 80))
                     else:
                         ctx.ok(rid, c, f"{name}: path-number membership test compares {left} with {el}")
-    if n == 0:
+    kinds.attr("locked")
+    for name, f, c in kinds.conflicts:
+        ctx.bad(rid, c, f"{f.name}: self.{name} is filled with path numbers in a different representation (int vs str) than at its other filling site(s): "
+                "consumers that test membership with one form never match entries written in the other (a finished re-issued job is never removed from the in-flight record)",
+                construct=short(c, 80))
+    if n == 0 and not kinds.conflicts:
         raise AnalysisError("R-3.8: no path-number membership test could be typed")
 
 
@@ -770,6 +794,7 @@ VARIANTS = [
     B("c03-finished-job-int-lookup", REPEX, "                if str(pn_old) in lock[1]:", "                if pn_old in lock[1]:", "R-3.8"),
     K("c03-keep-locked-paths-int-from-record", REPEX, "        locks = [\n            t0.path_number\n            for t0, l0 in zip(self._trajs[:-1], self._locks[:-1])\n            if l0\n        ]\n        return locks", "        return [int(pnum) for _, pnums in self.locked for pnum in pnums]"),
     B("c03-assign-engines-per-ensemble", REPEX, "            eng_names += ens_engs[ens_num + 1]\n", "            eng_names += ens_engs[ens_num + 1]\n            assign_engines(self.engine_occ, ens_engs[ens_num + 1], md_items[\"pin\"])\n", "R-3.6", why="seeded C03_b"),
+    B("c03-reissue-recorded-as-int", REPEX, "        self.locked.append((enss, trajs0))\n", "        self.locked.append((enss, [traj.path_number for traj in trajs]))\n", "R-3.8", why="seeded C17_a"),
     K("c03-keep-inline-lock", REPEX, "        self.swap(traj, ens)\n        self.lock(ens)\n        return self._trajs[ens]", "        self.swap(traj, ens)\n        self.lock(ens)\n        chosen = self._trajs[ens]\n        return chosen"),
     K("c03-keep-assert-as-if-raise", REPEX, "        assert self._locks[ens] == 0\n", "        if self._locks[ens] != 0:\n            raise AssertionError(\"ensemble is busy\")\n"),
     K("c03-keep-idle-test-eq-form", REPEX, "            (ens == self._offset and not self._locks[self._offset - 1])\n", "            (ens == self._offset and self._locks[self._offset - 1] == 0)\n"),
